@@ -216,7 +216,7 @@ func VerifC03Chain() {
 			cs = append(cs, vC03Content(rt.Choose(7), live.aclState))
 		}
 		prev := live.Head().Id
-		mutation := rt.Choose(6)
+		mutation := rt.Choose(7)
 		if mutation == 1 {
 			prev = root.Id // does not extend the current head (unless the head is the root)
 		}
@@ -242,6 +242,12 @@ func VerifC03Chain() {
 			b := append([]byte{}, rec.Payload...)
 			b[len(b)-1] ^= 0x01
 			rec = &consensusproto.RawRecordWithId{Payload: b, Id: rec.Id}
+		case 6: // same content, other bytes: the outer record re-encoded with its fields in another order, id unchanged
+			inner := &consensusproto.RawRecord{}
+			_ = inner.UnmarshalVT(rec.Payload)
+			tail, _ := (&consensusproto.RawRecord{Payload: inner.Payload}).MarshalVT()
+			head, _ := (&consensusproto.RawRecord{Signature: inner.Signature, AcceptorIdentity: inner.AcceptorIdentity, AcceptorSignature: inner.AcceptorSignature}).MarshalVT()
+			rec = &consensusproto.RawRecordWithId{Payload: append(head, tail...), Id: rec.Id}
 		}
 		before := vC03Observe(live)
 		stored := len(store.Storage.(*inMemoryStorage).records)
